@@ -277,4 +277,175 @@ theorem lead_modes (lines : List Line) (bln bcol ln col : Nat) (c : LComments) (
     simp only [leadingTrivia, he, Bool.false_eq_true, if_false, topLnOf]
     rfl
 
+/-! ### get_trivia_params is total on what _check_opt_trivia accepts -/
+
+theorem splitAt_digits (c : Char) (hc : isDigitCh c = false) :
+    ∀ ds : List Char, ds.all isDigitCh = true → splitAtChar c ds = none
+  | [], _ => rfl
+  | d :: ds, h => by
+    simp only [List.all_cons, Bool.and_eq_true] at h
+    have hne : (d == c) = false := by
+      by_cases e : d = c
+      · subst e; rw [h.1] at hc; cases hc
+      · simpa using e
+    simp [splitAtChar, hne, splitAt_digits c hc ds h.2]
+
+theorem parseNat_digits (ds : List Char) (h : ds.all isDigitCh = true) (hne : ds ≠ []) : ∃ n, parseNat ds = some n := by
+  unfold parseNat
+  have : ds.isEmpty = false := by cases ds <;> simp_all
+  simp [this, h]
+
+theorem spaceOf_digits (ds : List Char) (h : ds.all isDigitCh = true) : ∃ sp, spaceOf ds = some sp := by
+  unfold spaceOf
+  by_cases he : ds = []
+  · subst he; exact ⟨_, rfl⟩
+  · obtain ⟨n, hn⟩ := parseNat_digits ds h he
+    have : ds.isEmpty = false := by cases ds <;> simp_all
+    simp [this, hn]
+
+theorem stripPrefix_eq (p s r : List Char) (h : stripPrefix p s = some r) : s = p ++ r := by
+  unfold stripPrefix at h
+  split at h
+  · next hp =>
+    obtain ⟨t, ht⟩ := List.isPrefixOf_iff_prefix.mp hp
+    cases h; subst ht; simp
+  · cases h
+
+def words : List (List Char) := ["all".toList, "block".toList, "none".toList, "line".toList, []]
+
+/-- a string of the option language `word? ([+-] digits*)?`, not empty, is mapped to the word (or the default) -/
+theorem oneParam_str (p r dflt : List Char) (neg : Bool) (hp : p ∈ words) (hr : sufOk r = true) (hne : p ++ r ≠ []) :
+    ∃ sp ng, oneParam (.str (p ++ r)) dflt neg = some (.str (if p.isEmpty then dflt else p), sp, ng) := by
+  have hplus : isDigitCh '+' = false := by decide
+  have hminus : isDigitCh '-' = false := by decide
+  match r, hr with
+  | [], _ =>
+    simp only [words, List.mem_cons, List.not_mem_nil, or_false] at hp
+    rcases hp with rfl | rfl | rfl | rfl | rfl
+    · exact ⟨.bool false, false, by simp [oneParam, splitAtChar]⟩
+    · exact ⟨.bool false, false, by simp [oneParam, splitAtChar]⟩
+    · exact ⟨.bool false, false, by simp [oneParam, splitAtChar]⟩
+    · exact ⟨.bool false, false, by simp [oneParam, splitAtChar]⟩
+    · exact absurd rfl hne
+  | c :: ds, hr =>
+    simp only [sufOk, Bool.and_eq_true, Bool.or_eq_true, beq_iff_eq] at hr
+    obtain ⟨hc, hds⟩ := hr
+    simp only [words, List.mem_cons, List.not_mem_nil, or_false] at hp
+    rcases hc with rfl | rfl
+    · obtain ⟨sp, hsp⟩ := spaceOf_digits ds hds
+      rcases hp with rfl | rfl | rfl | rfl | rfl <;>
+        exact ⟨sp, false, by simp [oneParam, splitAtChar, hsp]⟩
+    · have hno := splitAt_digits '+' hplus ds hds
+      obtain ⟨sp, hsp⟩ := spaceOf_digits ds hds
+      cases neg
+      · rcases hp with rfl | rfl | rfl | rfl | rfl <;>
+          exact ⟨.int 0, true, by simp [oneParam, splitAtChar, hno]⟩
+      · rcases hp with rfl | rfl | rfl | rfl | rfl <;>
+          exact ⟨sp, true, by simp [oneParam, splitAtChar, hsp, hno]⟩
+
+
+/-- what `oneParam` may return as `comments`: a line number, the default word, `none`, or a non-empty admitted word -/
+def goodC (prefixes : List (List Char)) (dflt : List Char) (c : CVal) : Prop :=
+  (∃ n, c = .int n) ∨ ∃ w, c = .str w ∧ (w = dflt ∨ (w ∈ prefixes ∧ w ≠ []))
+
+theorem oneParam_ok (prefixes : List (List Char)) (hsub : ∀ p ∈ prefixes, p ∈ words) (hnone : "none".toList ∈ prefixes)
+    (v : TVal) (h : okVal prefixes v = true) (dflt : List Char) (neg : Bool) :
+    ∃ c sp ng, oneParam v dflt neg = some (c, sp, ng) ∧ goodC prefixes dflt c := by
+  cases v with
+  | bool b =>
+    cases b
+    · exact ⟨_, _, _, rfl, Or.inr ⟨"none".toList, rfl, Or.inr ⟨hnone, by decide⟩⟩⟩
+    · exact ⟨_, _, _, rfl, Or.inr ⟨_, rfl, Or.inl rfl⟩⟩
+  | int n => exact ⟨_, _, _, rfl, Or.inl ⟨n, rfl⟩⟩
+  | str s =>
+    simp only [okVal, reTrivia, Bool.and_eq_true, Bool.not_eq_true', List.any_eq_true] at h
+    obtain ⟨hne, p, hp, hm⟩ := h
+    split at hm
+    · next r hr =>
+      have hs := stripPrefix_eq p s r hr
+      subst hs
+      have hne' : p ++ r ≠ [] := by intro e; rw [e] at hne; simp at hne
+      obtain ⟨sp, ng, h1⟩ := oneParam_str p r dflt neg (hsub p hp) hm hne'
+      refine ⟨_, sp, ng, h1, Or.inr ⟨_, rfl, ?_⟩⟩
+      by_cases he : p = []
+      · left; simp [he]
+      · right
+        have : p.isEmpty = false := by cases p <;> simp_all
+        simp [this]; exact ⟨hp, he⟩
+    · cases hm
+
+theorem lead_sub : ∀ p ∈ leadPrefixes, p ∈ words := by decide
+theorem trail_sub : ∀ p ∈ trailPrefixes, p ∈ words := by decide
+
+theorem goodC_lead (c : CVal) (h : goodC leadPrefixes "block".toList c) :
+    legalLead c = true ∧ c ≠ .str "line".toList := by
+  rcases h with ⟨n, rfl⟩ | ⟨w, rfl, hw⟩
+  · exact ⟨rfl, by simp⟩
+  · rcases hw with rfl | ⟨hw, hne⟩
+    · exact ⟨by decide, by decide⟩
+    · simp only [leadPrefixes, List.mem_cons, List.not_mem_nil, or_false] at hw
+      rcases hw with rfl | rfl | rfl | rfl
+      · exact ⟨by decide, by decide⟩
+      · exact ⟨by decide, by decide⟩
+      · exact ⟨by decide, by decide⟩
+      · exact absurd rfl hne
+
+theorem goodC_trail (c : CVal) (h : goodC trailPrefixes "line".toList c) : legalTrail c = true := by
+  rcases h with ⟨n, rfl⟩ | ⟨w, rfl, hw⟩
+  · rfl
+  · rcases hw with rfl | ⟨hw, hne⟩
+    · decide
+    · simp only [trailPrefixes, List.mem_cons, List.not_mem_nil, or_false] at hw
+      rcases hw with rfl | rfl | rfl | rfl | rfl
+      · decide
+      · decide
+      · decide
+      · decide
+      · exact absurd rfl hne
+
+/-- a trailing component is also fine where only the leading words are admitted -/
+theorem okVal_lead_trail (v : TVal) (h : okVal leadPrefixes v = true) : okVal trailPrefixes v = true := by
+  cases v with
+  | bool b => rfl
+  | int n => rfl
+  | str s =>
+    simp only [okVal, reTrivia, Bool.and_eq_true, List.any_eq_true] at h ⊢
+    obtain ⟨hne, p, hp, hm⟩ := h
+    refine ⟨hne, p, ?_, hm⟩
+    simp only [leadPrefixes, trailPrefixes, List.mem_cons, List.not_mem_nil, or_false] at hp ⊢
+    rcases hp with rfl | rfl | rfl | rfl <;> simp
+
+theorem params_of (lc tc : TVal) (neg : Bool) (h1 : okVal leadPrefixes lc = true) (h2 : okVal trailPrefixes tc = true) :
+    ∃ c1 s1 n1 c2 s2 n2, oneParam lc "block".toList neg = some (c1, s1, n1) ∧ oneParam tc "line".toList neg = some (c2, s2, n2)
+      ∧ legalLead c1 = true ∧ c1 ≠ .str "line".toList ∧ legalTrail c2 = true := by
+  obtain ⟨c1, s1, n1, e1, g1⟩ := oneParam_ok leadPrefixes lead_sub (by decide) lc h1 "block".toList neg
+  obtain ⟨c2, s2, n2, e2, g2⟩ := oneParam_ok trailPrefixes trail_sub (by decide) tc h2 "line".toList neg
+  exact ⟨c1, s1, n1, c2, s2, n2, e1, e2, (goodC_lead c1 g1).1, (goodC_lead c1 g1).2, goodC_trail c2 g2⟩
+
+/-- **Totality**: every value `_check_opt_trivia` accepts is mapped by `get_trivia_params` to `comments` values that
+`leading_trivia` / `trailing_trivia` handle. -/
+theorem getTriviaParams_total (t : TrivOpt) (neg : Bool) (h : checkOptTrivia t = true) :
+    ∃ p, getTriviaParams t neg = some p ∧ legalLead p.leadC = true ∧ legalTrail p.trailC = true := by
+  have fin : ∀ lc tc, okVal leadPrefixes lc = true → okVal trailPrefixes tc = true →
+      ∃ p, (match oneParam lc "block".toList neg, oneParam tc "line".toList neg with
+        | some (c1, s1, n1), some (c2, s2, n2) =>
+          if (match lc with | .str _ => true | _ => false) && c1 == .str "line".toList then none
+          else some (⟨c1, s1, n1, c2, s2, n2⟩ : TParams)
+        | _, _ => none) = some p ∧ legalLead p.leadC = true ∧ legalTrail p.trailC = true := by
+    intro lc tc h1 h2
+    obtain ⟨c1, s1, n1, c2, s2, n2, e1, e2, l1, ne1, l2⟩ := params_of lc tc neg h1 h2
+    rw [e1, e2]
+    have : (c1 == CVal.str "line".toList) = false := by simpa using ne1
+    simp only [this, Bool.and_false, Bool.false_eq_true, if_false]
+    exact ⟨_, rfl, l1, l2⟩
+  match t, h with
+  | .single v, h => exact fin v (.bool true) h rfl
+  | .tuple [], _ => exact fin (.bool false) (.bool false) rfl rfl
+  | .tuple [a], h => exact fin (.bool true) a rfl h
+  | .tuple [a, b], h =>
+    simp only [checkOptTrivia, Bool.and_eq_true] at h
+    exact fin a b h.1 h.2
+  | .tuple (_ :: _ :: _ :: _), h => simp [checkOptTrivia] at h
+
+
 end Pfst.Trivia
